@@ -226,6 +226,13 @@ func (c *curvePoint) Double(a *curvePoint, pool *bnPool) {
 }
 
 func (c *curvePoint) Mul(a *curvePoint, scalar *big.Int, pool *bnPool) *curvePoint {
+	if scalar.Sign() < 0 {
+		// a·(-k) = -(a·k)
+		c.Mul(a, new(big.Int).Neg(scalar), pool)
+		c.Negative(c)
+		return c
+	}
+
 	sum := newCurvePoint(pool)
 	sum.SetInfinity()
 	t := newCurvePoint(pool)
